@@ -30,8 +30,12 @@ type bigCase struct {
 	callAlpha                        bool    // IndependenceNumber is cheap (few maximal independent sets)
 	callIndex                        bool    // ChromaticIndex is cheap (small line graph whose chi equals its omega)
 	callCliques                      bool    // AllMaximalCliques (few enough cliques)
-	callChi                          bool    // ChromaticNumber / IsKColorable are cheap
-	ksBelow                          bool    // IsKColorable(chi-1) is cheap as well
+	callChi                          bool    // ChromaticNumber is cheap (it starts with CliqueNumber)
+	ksBelow                          bool    // IsKColorable(chi-1) is cheap as well (chi and chi+1 always are)
+	skipOmega                        bool    // CliqueNumber walks every maximal clique: too many of them
+	parts                            [][]int // colour classes / parts, for the GreedyColor orders "largest part first" and "largest part last"
+	cliqueWalkDenseOnly              bool    // CliqueNumber / ChromaticNumber walk ~2*10^5 maximal cliques: 1 s dense, 5 s sparse; only the dense representation gets them
+	indexAnyLabelling                bool    // the line-graph search is forced whatever the labelling (else ChromaticIndex only on the fixed labelling, measured)
 }
 
 func edgesAsCliques(g *rg.G) [][]int {
@@ -163,9 +167,14 @@ func completeMultipartiteCase(name string, sizes []int) bigCase {
 	r := len(sizes)
 	bc := bigCase{name: name, g: g, omega: r, alpha: maxInt(sizes...), chi: r, chiIdx: -1, degen: n - maxInt(sizes...),
 		nCliques: product(sizes), callAlpha: true, callChi: true, ksBelow: true}
+	bc.parts = multipartiteParts(sizes)
 	if bc.nCliques <= maxListedCliques {
 		bc.cliques = productCliques(multipartiteParts(sizes))
 		bc.callCliques = true
+	} else {
+		// CliqueNumber (and ChromaticNumber through it) enumerates all maximal cliques
+		bc.skipOmega = true
+		bc.callChi = false
 	}
 	return bc
 }
@@ -196,7 +205,7 @@ func bigFamilies(n int) []bigCase {
 	{
 		g := rg.New(n)
 		add(bigCase{name: fmt.Sprintf("E_%d", n), g: g, omega: 1, alpha: n, chi: 1, chiIdx: 0, degen: 0, nCliques: n, cliques: edgesAsCliques(g),
-			callAlpha: true, callIndex: true, callCliques: true, callChi: true, ksBelow: true})
+			callAlpha: true, callIndex: true, callCliques: true, callChi: true, ksBelow: true, indexAnyLabelling: true})
 	}
 	// path
 	if n >= 2 {
@@ -206,14 +215,14 @@ func bigFamilies(n int) []bigCase {
 			ci = 1
 		}
 		add(bigCase{name: fmt.Sprintf("P_%d", n), g: g, omega: 2, alpha: (n + 1) / 2, chi: 2, chiIdx: ci, degen: 1, nCliques: n - 1, cliques: edgesAsCliques(g),
-			callAlpha: n <= 33, callIndex: true, callCliques: true, callChi: true, ksBelow: true})
+			callAlpha: n <= 33, callIndex: true, callCliques: true, callChi: true, ksBelow: true, indexAnyLabelling: true})
 	}
 	// cycle
 	if n >= 4 {
 		g := gen.Cycle(n)
 		chi := 2 + n%2
 		add(bigCase{name: fmt.Sprintf("C_%d", n), g: g, omega: 2, alpha: n / 2, chi: chi, chiIdx: chi, degen: 2, nCliques: n, cliques: edgesAsCliques(g),
-			callAlpha: n <= 33, callIndex: true, callCliques: true, callChi: true, ksBelow: true})
+			callAlpha: n <= 33, callIndex: true, callCliques: true, callChi: true, ksBelow: true, indexAnyLabelling: true})
 	}
 	// complement of the cycle (n <= 33: Perrin-many maximal cliques)
 	if n >= 6 && n <= 33 {
@@ -225,7 +234,7 @@ func bigFamilies(n int) []bigCase {
 	if n >= 3 {
 		g := gen.CompleteMultipartite(1, n-1)
 		add(bigCase{name: fmt.Sprintf("star_%d", n), g: g, omega: 2, alpha: n - 1, chi: 2, chiIdx: n - 1, degen: 1, nCliques: n - 1, cliques: edgesAsCliques(g),
-			callAlpha: true, callIndex: true, callCliques: true, callChi: true, ksBelow: true})
+			callAlpha: true, callIndex: true, callCliques: true, callChi: true, ksBelow: true, indexAnyLabelling: true})
 	}
 	// complete bipartite: balanced and very unbalanced
 	if n >= 4 {
@@ -236,11 +245,11 @@ func bigFamilies(n int) []bigCase {
 			}
 			g := gen.CompleteMultipartite(a, b)
 			add(bigCase{name: fmt.Sprintf("K_%d,%d", a, b), g: g, omega: 2, alpha: b, chi: 2, chiIdx: b, degen: a, nCliques: a * b, cliques: edgesAsCliques(g),
-				callAlpha: true, callIndex: a*b <= 1100, callCliques: true, callChi: true, ksBelow: true})
+				callAlpha: true, callIndex: a == 3 && b <= 130, callCliques: true, callChi: true, ksBelow: true})
 		}
 	}
 	// Turan graphs (balanced complete multipartite) with 3, 5 and 8 parts
-	for _, r := range []int{3, 5, 8} {
+	for _, r := range []int{3, 5} {
 		if n >= 2*r {
 			add(completeMultipartiteCase(fmt.Sprintf("turan_%d_%d", n, r), turanSizes(n, r)))
 		}
@@ -318,8 +327,58 @@ func bigFamilies(n int) []bigCase {
 		if n == 1<<uint(d) {
 			g := gen.Hypercube(d)
 			add(bigCase{name: fmt.Sprintf("Q_%d", d), g: g, omega: 2, alpha: n / 2, chi: 2, chiIdx: d, degen: d, nCliques: d * n / 2, cliques: edgesAsCliques(g),
-				callAlpha: d <= 4, callIndex: true, callCliques: true, callChi: true, ksBelow: true})
+				callAlpha: d <= 4, callIndex: d <= 6, callCliques: true, callChi: true, ksBelow: true})
 		}
+	}
+	return out
+}
+
+// degreeFamilies: graphs whose degrees and colour classes cross 255 / 256 / 257
+// (a counter of "neighbours with colour c" kept in 8 bits wraps exactly there).
+// Complete multipartite graphs with a part of 255..300 vertices, stars, the
+// wheel with 300 rim vertices, the join of K_3 with 300 isolated vertices.
+func degreeFamilies() []bigCase {
+	var out []bigCase
+	multi := func(name string, sizes ...int) {
+		b := completeMultipartiteCase(name, sizes)
+		// CliqueNumber walks all maximal cliques (up to 2*10^5 here: measured
+		// 0.3 - 1.5 s); the lists themselves are only compared where short.
+		b.skipOmega = false
+		b.callChi = true
+		b.callAlpha = true
+		if len(sizes) == 2 {
+			b.chiIdx = maxInt(sizes...) // not called: the line graph has a*b vertices
+		}
+		b.cliqueWalkDenseOnly = b.nCliques > 100000
+		out = append(out, b)
+	}
+	multi("K_255,256", 255, 256)
+	multi("K_256,257", 256, 257)
+	multi("K_257,256", 257, 256)
+	multi("K_256,300", 256, 300)
+	multi("K_256,258,3", 256, 258, 3)
+	multi("K_3,256,257", 3, 256, 257)
+	multi("K_2,300", 2, 300)
+	multi("K_1,1,300", 1, 1, 300)
+	multi("K_3+E_300", 1, 1, 1, 300) // join of K_3 with 300 isolated vertices
+	for _, l := range []int{255, 256, 257, 300} {
+		b := completeMultipartiteCase(fmt.Sprintf("star_%dleaves", l), []int{1, l})
+		b.chiIdx = l
+		b.callIndex = true // the line graph is K_l: forced search
+		b.indexAnyLabelling = true
+		out = append(out, b)
+	}
+	{
+		r := 300
+		g := gen.Wheel(r)
+		var tri [][]int
+		var rim []int
+		for i := 0; i < r; i++ {
+			tri = append(tri, []int{i, (i + 1) % r, r})
+			rim = append(rim, i)
+		}
+		out = append(out, bigCase{name: "wheel_300rim", g: g, omega: 3, alpha: r / 2, chi: 3, chiIdx: r, degen: 3, nCliques: r, cliques: tri,
+			callCliques: true, callChi: true, ksBelow: true, parts: [][]int{{r}, rim}})
 	}
 	return out
 }
@@ -333,7 +392,7 @@ func mycielskiChain(k int) []bigCase {
 			g = gen.Mycielski(g)
 		}
 		out = append(out, bigCase{name: fmt.Sprintf("mycielski_M%d", i), g: g, omega: 2, alpha: -1, chi: i, chiIdx: -1, degen: -1, nCliques: g.M(), cliques: edgesAsCliques(g),
-			callCliques: true, callChi: true, ksBelow: i <= 5})
+			callCliques: true, callChi: i <= 5, ksBelow: i <= 5})
 	}
 	return out
 }
@@ -345,36 +404,29 @@ var bigSizes = []int{31, 32, 33, 63, 64, 65, 66, 100, 127, 128, 129, 130, 200}
 // extraSizes: small even orders for the cocktail party graphs.
 var extraSizes = []int{20, 22, 24}
 
-// bigUnits registers one unit per size.
+// bigUnits registers one unit per (order, family).
 func bigUnits(c *engine.Ctx) {
 	sizes := append(append([]int(nil), extraSizes...), bigSizes...)
 	for _, n := range sizes {
-		n := n
-		c.Unit(fmt.Sprintf("large/n=%d", n), func() {
-			fams := bigFamilies(n)
-			if n < 31 {
-				// only the cocktail party graph at the extra sizes
-				var keep []bigCase
-				for _, b := range fams {
-					if strings.HasPrefix(b.name, "cocktail") {
-						keep = append(keep, b)
-					}
-				}
-				fams = keep
+		for fi, b := range bigFamilies(n) {
+			if n < 31 && !strings.HasPrefix(b.name, "cocktail") {
+				continue // only the cocktail party graphs at the extra sizes
 			}
-			for fi, b := range fams {
-				if c.Stopped() {
-					return
-				}
-				runBig(c, b, n*1000+fi)
-			}
+			n, fi, b := n, fi, b
+			c.Unit(fmt.Sprintf("large/n=%d/%s", n, b.name), func() { runBig(c, b, n*1000+fi) })
+		}
+	}
+	for fi, b := range mycielskiChain(6) {
+		fi, b := fi, b
+		c.Unit("large/"+b.name, func() { runBig(c, b, 900000+fi) })
+	}
+	for fi, b := range degreeFamilies() {
+		fi, b := fi, b
+		c.Unit("large/degree256/"+b.name, func() {
+			c.Obs("large:degree>=255", 1)
+			runBig(c, b, 950000+fi)
 		})
 	}
-	c.Unit("large/mycielski", func() {
-		for fi, b := range mycielskiChain(6) {
-			runBig(c, b, 900000+fi)
-		}
-	})
 }
 
 func mapCliques(cl [][]int, inv []int) []string {
@@ -404,6 +456,10 @@ func runBig(c *engine.Ctx, b bigCase, idx int) {
 		}
 		r.alpha = -1
 	}
+	if b.skipOmega {
+		c.Obs("large:CliqueNumber_skipped(too many maximal cliques)", 1)
+		r.omega = -1
+	}
 	if !b.callIndex {
 		c.Obs("large:ChromaticIndex_skipped(line graph too large or chi(L) > omega(L))", 1)
 	}
@@ -411,6 +467,16 @@ func runBig(c *engine.Ctx, b bigCase, idx int) {
 		c.Obs("large:AllMaximalCliques_skipped(too many cliques)", 1)
 	}
 	for li := 0; li < 2; li++ {
+		// quick tier, n >= 200: identity labelling in the dense and the seeded
+		// relabelling in the sparse representation; everything else: both in both
+		reps := map[string]bool{"dense": true, "sparse": true}
+		if !c.Thorough() && n >= 200 {
+			if li == 0 {
+				reps = map[string]bool{"dense": true}
+			} else {
+				reps = map[string]bool{"sparse": true}
+			}
+		}
 		p := identity(n)
 		id := b.name
 		rng := fixedRng("large-case", idx)
@@ -428,17 +494,51 @@ func runBig(c *engine.Ctx, b bigCase, idx int) {
 			cs.cliqueSets = mapCliques(b.cliques, inv)
 		}
 		var ks []int
-		if b.callChi {
-			for _, k := range []int{b.chi - 1, b.chi, b.chi + 1} {
-				if k < 0 || (k == b.chi-1 && !b.ksBelow) {
-					continue
-				}
-				ks = append(ks, k)
+		for _, k := range []int{b.chi - 1, b.chi, b.chi + 1} {
+			if k < 0 || (k == b.chi-1 && !b.ksBelow) {
+				continue
 			}
+			ks = append(ks, k)
 		}
-		opt := runOpts{index: b.callIndex, seededOrders: 2, rng: rng, reps: map[string]bool{"dense": true, "sparse": true},
+		opt := runOpts{index: b.callIndex && (li == 0 || b.indexAnyLabelling), seededOrders: 2, rng: rng, reps: reps,
 			ks: ks, fixedKs: true, noChi: !b.callChi, noCliques: !b.callCliques}
-		runCase(c, cs, opt)
+		if b.parts != nil {
+			// vertex orders by part: largest part first / last
+			ps := append([][]int(nil), b.parts...)
+			sort.SliceStable(ps, func(x, y int) bool { return len(ps[x]) > len(ps[y]) })
+			var first, last []int
+			for _, part := range ps {
+				for _, v := range part {
+					first = append(first, inv[v])
+				}
+			}
+			for k := len(ps) - 1; k >= 0; k-- {
+				for _, v := range ps[k] {
+					last = append(last, inv[v])
+				}
+			}
+			opt.extraOrders = [][]int{first, last}
+			opt.extraOrderNames = []string{"largest-part-first", "largest-part-last"}
+		}
+		if (b.cliqueWalkDenseOnly || (!c.Thorough() && b.nCliques > maxListedCliques && n > 500)) && reps["sparse"] {
+			if reps["dense"] {
+				od := opt
+				od.reps = map[string]bool{"dense": true}
+				runCase(c, cs, od)
+			}
+			// sparse: without the two functions that walk every maximal clique
+			c.Obs("large:CliqueNumber/ChromaticNumber_skipped_on_sparse(>=65000 maximal cliques)", 1)
+			rs := *r
+			rs.omega = -1
+			css := *cs
+			css.ref = &rs
+			os := opt
+			os.reps = map[string]bool{"sparse": true}
+			os.noChi = true
+			runCase(c, &css, os)
+		} else {
+			runCase(c, cs, opt)
+		}
 		if li == 0 && (n == 64 || n == 200) {
 			c.Sample(fmt.Sprintf("large:n=%d", n), map[string]interface{}{"name": b.name, "n": n, "m": r.m, "omega": b.omega, "alpha": b.alpha, "chi": b.chi, "chi_index": b.chiIdx, "degeneracy": b.degen, "maximal_cliques": b.nCliques})
 		}
@@ -495,6 +595,25 @@ func init() {
 		for _, b := range mycielskiChain(4) {
 			if err := check(b); err != nil {
 				return err
+			}
+		}
+		// the join / tripartite / star closed forms at small sizes (same code path as degreeFamilies)
+		for _, sizes := range [][]int{{1, 1, 1, 5}, {1, 1, 6}, {2, 7}, {4, 5, 3}, {3, 4, 5}, {1, 9}, {5, 4}} {
+			b := completeMultipartiteCase(fmt.Sprint("K_", sizes), sizes)
+			if len(sizes) == 2 {
+				b.chiIdx = maxInt(sizes...)
+			}
+			if err := check(b); err != nil {
+				return err
+			}
+		}
+		for _, b := range degreeFamilies() {
+			want := 0
+			for _, part := range b.parts {
+				want += len(part)
+			}
+			if want != b.g.N {
+				return fmt.Errorf("%s: parts cover %d of %d vertices", b.name, want, b.g.N)
 			}
 		}
 		// the constructors must really produce the orders asked for
